@@ -154,6 +154,10 @@ class Interp(object):
             if head in ("Val", "Key"):
                 reg.need_val()
             return Opaque(reg.new(name, head))
+        if head == "Dict":
+            # a mutable dictionary-like value passed by reference (the argument may also be a scalar: isdict() tells)
+            reg.need_val()
+            return self.new_cell(st, ValCell(reg.new(name, "Val")))
         if head == "Lst":
             sort = self.lst_sort(args[0])
             t = reg.new(name, sort)
@@ -754,7 +758,10 @@ class Interp(object):
         raise Unsupported("dict key %r" % (k,))
 
     def val_has(self, s, dterm, k):
-        # `k in d` raises TypeError if d is a scalar (not iterable) -- checked at the call site via val_is_dict
+        # `k in d` raises TypeError if d is a scalar (not iterable; strings are not modelled as containers here)
+        if not self.spec_mode:
+            from .dicts import need_dict
+            need_dict(self, s, dterm, "in")
         return T("(vhas %s %s)" % (dterm.s, self.key_term(k).s), "Bool")
 
     def ev_IfExp(self, e, st):
